@@ -146,8 +146,9 @@ def shards(tier, seed):
                                     'chunk': [a, min(n_orders, a + step)]})
             elif thorough and n_orders > 60:
                 for ci in range(ncfg):
-                    out.append({'b': 'orders', 'K': K, 'M': M, 'R': R, 'P': P, 'cfgs': [ci],
-                                'chunk': [0, n_orders]})
+                    for a in range(0, n_orders, 130):
+                        out.append({'b': 'orders', 'K': K, 'M': M, 'R': R, 'P': P, 'cfgs': [ci],
+                                    'chunk': [a, min(n_orders, a + 130)]})
             else:
                 out.append({'b': 'orders', 'K': K, 'M': M, 'R': R, 'P': P,
                             'cfgs': list(range(ncfg)), 'chunk': [0, n_orders]})
@@ -160,7 +161,7 @@ def shards(tier, seed):
                 out.append({'b': 'relabel', 'K': K, 'M': M, 'R': R, 'P': P, 'cfgs': list(range(ncfg))})
     for K, M, R, P, alpha in _alpha_sets(tier):
         total = len(ALPHABETS[alpha]) ** (K * M * R * P)
-        step = (729 if thorough else 243) if total > 1000 else 81
+        step = (729 if thorough else 243) if total > 1000 else 27
         for a in range(0, total, step):
             out.append({'b': 'alpha', 'K': K, 'M': M, 'R': R, 'P': P, 'a': alpha,
                         'chunk': [a, min(total, a + step)]})
